@@ -383,3 +383,31 @@ package mail
 //@   loop 4 invariant[C12:inv] mwinv(mw) && sticky(mw) && msgok(msg)
 //@ func mail.msgWriter.getMultipartBoundary
 //@   requires[C12:inv] msg != nil
+
+// ---------------------------------------------------------------------------
+// C06  Recipients are exactly To+Cc+Bcc, and Bcc stays hidden
+//
+//@ fn alen(m *mail.Msg, k string) int = ((k in m.addrHeader) ? len(m.addrHeader[k]) : 0)
+//@ fn rkey(n int) string = (n == 0 ? "To" : (n == 1 ? "Cc" : "Bcc"))
+//@ fn rpre(m *mail.Msg, n int) int = (n >= 1 ? alen(m, "To") : 0) + (n >= 2 ? alen(m, "Cc") : 0) + (n >= 3 ? alen(m, "Bcc") : 0)
+//@ pred grpTo(m *mail.Msg, r []string) = forall j :: 0 <= j && j < alen(m, "To") ==> r[j] == m.addrHeader["To"][j].Address
+//@ pred grpCc(m *mail.Msg, r []string) = forall j :: 0 <= j && j < alen(m, "Cc") ==> r[alen(m, "To") + j] == m.addrHeader["Cc"][j].Address
+//@ pred grpBcc(m *mail.Msg, r []string) = forall j :: 0 <= j && j < alen(m, "Bcc") ==> r[alen(m, "To") + alen(m, "Cc") + j] == m.addrHeader["Bcc"][j].Address
+//@ pred addrok(m *mail.Msg) = m != nil && (forall k string :: k in m.addrHeader ==> (forall j :: 0 <= j && j < len(m.addrHeader[k]) ==> m.addrHeader[k][j] != nil))
+//@ func mail.Msg.GetSender (useFullAddr) (s, err)
+//@   requires[C06:wf] addrok(m)
+//@   ensures[C06:envelope-from-first] err == nil && !useFullAddr && alen(m, "EnvelopeFrom") > 0 ==> s == m.addrHeader["EnvelopeFrom"][0].Address
+//@   ensures[C06:else-from] err == nil && !useFullAddr && alen(m, "EnvelopeFrom") == 0 ==> alen(m, "From") > 0 && s == m.addrHeader["From"][0].Address
+//@   ensures[C06:no-sender] err != nil ==> alen(m, "EnvelopeFrom") == 0 && alen(m, "From") == 0
+//@ func mail.Msg.GetRecipients () (r, err)
+//@   requires[C06:wf] addrok(m)
+//@   ensures[C06:count] len(r) == alen(m, "To") + alen(m, "Cc") + alen(m, "Bcc")
+//@   ensures[C06:to] grpTo(m, r)
+//@   ensures[C06:cc] grpCc(m, r)
+//@   ensures[C06:bcc] grpBcc(m, r)
+//@   loop 1 invariant[C06:outer] (0 - 1) <= rangeindex && rangeindex <= 2 && freshslice(rcpts) && len(rcpts) == rpre(m, rangeindex + 1) && (rangeindex >= 0 ==> grpTo(m, rcpts)) && (rangeindex >= 1 ==> grpCc(m, rcpts)) && (rangeindex >= 2 ==> grpBcc(m, rcpts))
+//@   loop 2 invariant[C06:inner] (0 - 1) <= loopidx(1) && loopidx(1) <= 1 && freshslice(rcpts) && (0 - 1) <= rangeindex && rangeindex < len(addresses) && addresses == m.addrHeader[rkey(loopidx(1) + 1)] && len(addresses) == alen(m, rkey(loopidx(1) + 1)) && len(rcpts) == rpre(m, loopidx(1) + 1) + rangeindex + 1 && (loopidx(1) >= 0 ==> len(rcpts) >= alen(m, "To")) && (loopidx(1) >= 1 ==> len(rcpts) >= alen(m, "To") + alen(m, "Cc")) && (loopidx(1) >= 0 ==> grpTo(m, rcpts)) && (loopidx(1) >= 1 ==> grpCc(m, rcpts)) && (forall j :: 0 <= j && j <= rangeindex ==> rcpts[rpre(m, loopidx(1) + 1) + j] == addresses[j].Address)
+//@ at mail.Client.sendSingleMsg smtp.Client.Mail#1 before assert[C06:sender] arg1 == from
+//@ at mail.Client.sendSingleMsg smtp.Client.Rcpt#1 before assert[C06:one-rcpt-per-recipient-in-order] arg1 == rcpts[rangeindex + 1]
+//@ func mail.Client.sendSingleMsg
+//@   requires[C06:wf] c != nil && client != nil && addrok(message)
